@@ -16,6 +16,11 @@
   invalidities the property lists; sparse → sparse conversions never change the denotation, valid
   or not; unsupported requests throw.
 
+  Eight of the nine conversions can succeed in this build; COO→CSC and CSC sorting are compiled out
+  by the missing `std::views::zip` and are proved to always return an error
+  (`cooToCsc_never_ok`, `unsupported_compiled_out`), so `convert_preserves` & co. say nothing about
+  COO→CSC here (their hypothesis `convert … = .ok cv` is unsatisfiable for that pair).
+
   Not covered by any theorem: inputs on which the C++ has undefined behaviour (out-of-range
   indices in a conversion to dense, malformed outer pointers, index vectors of different
   length — `Err.ub` in the model), overflow of index-width casts, and the C++23 sorting paths
@@ -579,6 +584,65 @@ example : OrderTruthful csc33 := by
   rw [h] at hes; cases hes
   show List.Pairwise _ _
   decide
+
+-- identity-format conversions, symmetric (Upper / Lower) sources, theorems applied to instances
+/-- the symmetric matrix of `csc33`, lower triangle in COO with C indices. -/
+def coo33low : Sparsity :=
+  .coo { rows := 3, cols := 3, sym := .lower, rowIdx := [0, 1, 1, 2], colIdx := [0, 0, 1, 2],
+         order := .colsAndRows, firstIndex := 0, ity := .int }
+
+-- `.ok` for the two identity-format conversions (values copied, tags kept / index type changed)
+example : convertAll (0 : Int) (.dense { rows := 2, cols := 3, sym := .unsym }) .dense {} [1, 2, 3, 4, 5, 6] =
+    .ok (.dense { rows := 2, cols := 3, sym := .unsym }, [1, 2, 3, 4, 5, 6]) := by rfl
+example : convertAll (0 : Int) (.dense { rows := 2, cols := 2, sym := .lower }) .dense {} [1, 2, 9, 3] =
+    .ok (.dense { rows := 2, cols := 2, sym := .lower }, [1, 2, 9, 3]) := by rfl
+example : convertAll (0 : Int) csc33 (.csc .int) {} [1, 2, 3, 4] =
+    .ok (.csc { rows := 3, cols := 3, sym := .upper, inner := [0, 0, 1, 2], outer := [0, 1, 3, 4],
+                order := .sortedRows, ity := .int }, [1, 2, 3, 4]) := by rfl
+example : convertAll (0 : Int) csc33 (.csc .longlong) { order := some .sortedRows } [1, 2, 3, 4] =
+    .ok (.csc { rows := 3, cols := 3, sym := .upper, inner := [0, 0, 1, 2], outer := [0, 1, 3, 4],
+                order := .sortedRows, ity := .longlong }, [1, 2, 3, 4]) := by rfl
+-- a lower-triangular source is mirrored into both triangles of the dense target
+example : convertAll (0 : Int) coo33low .dense {} [1, 2, 3, 4] =
+    .ok (.dense { rows := 3, cols := 3, sym := .lower }, [1, 2, 0, 2, 3, 0, 0, 0, 4]) := by rfl
+
+/-- `convert_preserves` with both hypotheses discharged by evaluation: the source denotes a matrix
+    and the pattern conversion succeeds, hence the value conversion succeeds and the result denotes
+    the same matrix. -/
+theorem convert_preserves_instance {β : Type} (z : β) (r : Sparsity) (t : Target) (req : Request) (v : List β)
+    (h1 : (denote z r v).isSome = true) (h2 : ∃ cv, convert z r t req = .ok cv) :
+    ∃ M cv v', denote z r v = some M ∧ convert z r t req = .ok cv ∧ cv.vals v = .ok v' ∧
+      denote z cv.out v' = some M := by
+  obtain ⟨M, hM⟩ := Option.isSome_iff_exists.mp h1
+  obtain ⟨cv, hc⟩ := h2
+  obtain ⟨v', hv, hd⟩ := convert_preserves z r t req v M hM hc
+  exact ⟨M, cv, v', hM, hc, hv, hd⟩
+
+-- symmetric sources: Upper (CSC, dense) and Lower (COO), into every target that this build supports
+example := convert_preserves_instance (0 : Int) csc33 .dense {} [1, 2, 3, 4] rfl ⟨_, rfl⟩
+example := convert_preserves_instance (0 : Int) csc33 (.coo .int) { firstIndex := some 1 } [1, 2, 3, 4] rfl ⟨_, rfl⟩
+example := convert_preserves_instance (0 : Int) csc33 (.csc .int) {} [1, 2, 3, 4] rfl ⟨_, rfl⟩
+example := convert_preserves_instance (0 : Int) coo33low .dense {} [1, 2, 3, 4] rfl ⟨_, rfl⟩
+example := convert_preserves_instance (0 : Int) coo33low (.coo .long) { firstIndex := some 1 } [1, 2, 3, 4] rfl ⟨_, rfl⟩
+example := convert_preserves_instance (0 : Int) (.dense { rows := 3, cols := 3, sym := .upper }) (.csc .int) {}
+  [11, 21, 31, 12, 22, 32, 13, 23, 33] rfl ⟨_, rfl⟩
+example := convert_preserves_instance (0 : Int) (.dense { rows := 3, cols := 3, sym := .upper }) (.coo .int) {}
+  [11, 21, 31, 12, 22, 32, 13, 23, 33] rfl ⟨_, rfl⟩
+example := convert_preserves_instance (0 : Int) (.dense { rows := 2, cols := 2, sym := .lower }) .dense {}
+  [1, 2, 9, 3] rfl ⟨_, rfl⟩
+-- unsymmetric source (the 2×3 COO)
+example := convert_preserves_instance (0 : Int) coo23 .dense {} [10, 20, 30] rfl ⟨_, rfl⟩
+/-- `toDense_fills_every_cell`, both hypotheses discharged by evaluation. -/
+theorem toDense_fills_instance {β : Type} (z : β) (r : Sparsity) (hr : IsSparse r) (req : Request) (v : List β)
+    (h1 : (denote z r v).isSome = true) (h2 : ∃ cv, convert z r .dense req = .ok cv) :
+    ∃ M cv v', denote z r v = some M ∧ convert z r .dense req = .ok cv ∧ cv.vals v = .ok v' ∧
+      v'.length = r.rows * r.cols ∧ denseRaw z r.rows r.cols v' = M := by
+  obtain ⟨M, hM⟩ := Option.isSome_iff_exists.mp h1
+  obtain ⟨cv, hc⟩ := h2
+  obtain ⟨v', hv, hl, hd⟩ := toDense_fills_every_cell z r hr req v M hM hc
+  exact ⟨M, cv, v', hM, hc, hv, hl, hd⟩
+example := toDense_fills_instance (0 : Int) coo33low trivial {} [1, 2, 3, 4] rfl ⟨_, rfl⟩
+example := toDense_fills_instance (0 : Int) csc33 trivial {} [1, 2, 3, 4] rfl ⟨_, rfl⟩
 
 end examples
 
